@@ -394,3 +394,115 @@ func (t *Terminal) finalFieldState(obj Val, name string) (Val, string) {
 	}
 	return nil, "unknown"
 }
+
+// reader navigates the final state of a terminal: fields of struct values / pointees and elements of slices, assembling
+// aggregates from their parts the way a run-time read at function exit would see them.
+type reader struct {
+	t  *Terminal
+	en *Engine
+}
+
+func newReader(t *Terminal) *reader { return &reader{t: t, en: NewEngine(nil)} }
+
+func (r *reader) field(v Val, name string) Val {
+	if v == nil {
+		return nil
+	}
+	v = stripIface(v)
+	switch x := v.(type) {
+	case *StructLitV:
+		if f, ok := x.Fields[name]; ok {
+			return f
+		}
+		return nil
+	case *LoadV:
+		if st, ok := derefStruct(x.Addr.Type()); ok {
+			if i := fieldIndex(st, name); i >= 0 {
+				ft := st.Underlying().(*types.Struct).Field(i).Type()
+				return r.en.load(r.t.St, mkFieldAddr(x.Addr, i, st, ft), ft)
+			}
+		}
+		return nil
+	}
+	if st, ok := derefStruct(v.Type()); ok {
+		if i := fieldIndex(st, name); i >= 0 {
+			ft := st.Underlying().(*types.Struct).Field(i).Type()
+			return r.en.load(r.t.St, mkFieldAddr(v, i, st, ft), ft)
+		}
+		return nil
+	}
+	if stt, ok := v.Type().Underlying().(*types.Struct); ok {
+		if i := fieldIndex(v.Type(), name); i >= 0 {
+			return mkField(v, i, name, stt.Field(i).Type())
+		}
+	}
+	return nil
+}
+
+func (r *reader) elems(v Val) ([]Val, bool) {
+	if v == nil {
+		return nil, false
+	}
+	switch x := v.(type) {
+	case *ConstV:
+		if isNilConst(x) {
+			return nil, true
+		}
+	case *AppendV:
+		if x.Spread {
+			return nil, false
+		}
+		b, ok := r.elems(x.S)
+		if !ok {
+			return nil, false
+		}
+		return append(b, x.Elems...), true
+	case *AllocV:
+		if x.Comment == "makeslice" {
+			c, ok := r.t.St.heap["len:"+x.Key()]
+			if !ok {
+				return nil, false
+			}
+			n, isC := constInt(c.val)
+			sl, isS := x.Type().Underlying().(*types.Pointer)
+			if !isC || !isS || n > 64 {
+				return nil, false
+			}
+			var et types.Type
+			switch u := sl.Elem().Underlying().(type) {
+			case *types.Array:
+				et = u.Elem()
+			case *types.Slice:
+				et = u.Elem()
+			default:
+				return nil, false
+			}
+			out := make([]Val, n)
+			for i := range out {
+				out[i] = r.en.load(r.t.St, mkIndexAddr(x, intV(int64(i)), et), et)
+			}
+			return out, true
+		}
+	case *SliceV:
+		if a, ok := x.X.(*AllocV); ok && (x.Lo == nil || isConstInt(x.Lo, 0)) {
+			if p, ok := a.Type().Underlying().(*types.Pointer); ok {
+				if arr, ok := p.Elem().Underlying().(*types.Array); ok && arr.Len() <= 64 {
+					n := arr.Len()
+					if x.Hi != nil {
+						k, isC := constInt(x.Hi)
+						if !isC || k > n {
+							return nil, false
+						}
+						n = k
+					}
+					out := make([]Val, n)
+					for i := range out {
+						out[i] = r.en.load(r.t.St, mkIndexAddr(a, intV(int64(i)), arr.Elem()), arr.Elem())
+					}
+					return out, true
+				}
+			}
+		}
+	}
+	return nil, false
+}
